@@ -151,3 +151,86 @@ func VerifC06_TryPlaceholderAllocate() {
 	}
 	vReach("end")
 }
+
+// G3: the placeholder timeout. Fired by calling the timer callback directly (the timer may already have fired and
+// be waiting for the application lock when it is stopped, so every state is a possible pre-state).
+func VerifC06_PlaceholderTimeout() {
+	vUnwind(24)
+	g := vGangWorld()
+	app, ph, real := g.app, g.ph, g.real
+	hard := vBool("hard")
+	if hard {
+		app.gangSchedulingStyle = Hard
+	} else {
+		app.gangSchedulingStyle = Soft
+	}
+	vSplit("hard")
+	vSplit("state")
+	vSplit("real.tg")
+	// a placeholder holds something: an empty placeholder is not a placeholder the shim can create
+	phPos := false
+	for i := 0; i < vNK(); i++ {
+		if rv(ph.allocatedResource, i) > 0 {
+			phPos = true
+		}
+	}
+	vAssume(phPos)
+	state0 := app.stateMachine.Current()
+	phWasLive := !ph.released && !ph.preempted
+	// a real allocation exists exactly when the application is Running here
+	var realAlloc *Allocation
+	if state0 == "Running" {
+		realAlloc = &Allocation{allocationKey: "real-0", applicationID: "app-1", allocatedResource: vResQ("real0.res"), allocated: true, nodeID: "node-2", allocLog: map[string]*AllocationLogEntry{}}
+		app.allocations["real-0"] = realAlloc
+		app.requests["real-0"] = realAlloc
+		app.allocatedResource = realAlloc.allocatedResource.Clone()
+	}
+	app.timeoutPlaceholderProcessing()
+	state1 := app.stateMachine.Current()
+	if state0 == "Accepted" {
+		// before any real allocation: Hard fails, Soft resumes; everything of the gang is released
+		if hard {
+			vAssert(state1 == "Failing", "G3 a Hard gang application fails when the placeholder timeout fires before any real allocation")
+		} else {
+			vAssert(state1 == "Resuming", "G3 a Soft gang application resumes normal scheduling when the placeholder timeout fires before any real allocation")
+		}
+		vAssert(len(app.requests) == 0 && isZeroRes(app.pending), "G3 every pending ask is removed on timeout")
+		vAssert(g.rec.relByKey("ask-2") == 1 && real.released, "G3 the pending ask is announced as released once")
+		vAssert(ph.released || ph.preempted, "G3 every placeholder is released (or already preempted) after the timeout")
+		if phWasLive {
+			vAssert(g.rec.relByKey("ask-1") == 1, "G3 a live placeholder is announced exactly once with the timeout")
+		}
+	} else {
+		// Running: the application has a real allocation
+		vAssert(state1 == state0, "G3 once the application runs, the placeholder timeout never changes its state")
+		vAssert(realAlloc != nil && !realAlloc.released && app.allocations["real-0"] == realAlloc && g.rec.relByKey("real-0") == 0, "G3 the placeholder timeout never releases a real allocation")
+		vAssert(ph.released || ph.preempted, "G3 remaining placeholders are released (or already preempted) after the timeout")
+		if phWasLive {
+			vAssert(g.rec.relByKey("ask-1") == 1, "G3 remaining live placeholders are announced once")
+		}
+	}
+	vReach("end")
+}
+
+// F18 shape: Running, every placeholder already replaced, the (late) timer callback still runs
+func VerifC06_LateTimeoutOnRunningApp() {
+	vUnwind(24)
+	rec := &vRecorder{}
+	c := vChain()
+	app := vApp("app-1", c[0], rec)
+	app.stateMachine.SetState(vStr("state", "Running", "Completing"))
+	if vBool("hard") {
+		app.gangSchedulingStyle = Hard
+	} else {
+		app.gangSchedulingStyle = Soft
+	}
+	state0 := app.stateMachine.Current()
+	realAlloc := &Allocation{allocationKey: "real-0", applicationID: "app-1", allocatedResource: vResQ("real0.res"), allocated: true, nodeID: "node-1", taskGroupName: "tg-1", allocLog: map[string]*AllocationLogEntry{}}
+	app.allocations["real-0"] = realAlloc
+	app.requests["real-0"] = realAlloc
+	app.allocatedResource = realAlloc.allocatedResource.Clone()
+	app.placeholderData = map[string]*PlaceholderData{"tg-1": {TaskGroupName: "tg-1", Count: 1, Replaced: 1}}
+	app.timeoutPlaceholderProcessing()
+	vAssert(app.stateMachine.Current() == state0 && !realAlloc.released && len(rec.released) == 0, "G3 a placeholder timeout that fires after every placeholder was replaced leaves the running application and its real allocations alone")
+	vReach("end")
+}
